@@ -736,3 +736,34 @@ fn serial_decimal_text_roundtrip_q() { serial_text_roundtrip_body(2); }
 #[kani::proof]
 #[kani::unwind(22)]
 fn serial_decimal_text_roundtrip_t() { serial_text_roundtrip_body(4); }
+
+//------------ encoding side: which form is chosen ------------------------------
+
+/// @tier quick thorough
+/// @fn rpki::repository::x509::Time::encode_varied rpki::repository::x509::Time::encode_utc_time
+///   rpki::repository::x509::Time::encode_generalized_time
+/// @bounds every calendar second of the years 1..=9999 (year, day of year
+///   and second of day symbolic); the form is observed through the DER
+///   length of the value (15 = tag, length, 13 content octets of a UTCTime;
+///   17 = 15 content octets of a GeneralizedTime), no formatting runs
+/// @says an instant is encoded as UTCTime exactly when its year is
+///   1950..=2049 and as GeneralizedTime otherwise (the split the decoder's
+///   two-digit pivot at 50 inverts)
+/// @out the digits written (core::fmt), decided on the decoding side only
+#[kani::proof]
+#[kani::unwind(3)]
+fn encode_varied_picks_form_by_year() {
+    use bcder::encode::Values;
+    let (t, (y, _, _)) = any_time();
+    let v = t.encode_varied();
+    let n = v.encoded_len(bcder::Mode::Der);
+    kani::cover!(y == 1949);
+    kani::cover!(y == 1950);
+    kani::cover!(y == 2049);
+    kani::cover!(y == 2050);
+    if y >= 1950 && y <= 2049 {
+        assert!(n == 15);
+    } else {
+        assert!(n == 17);
+    }
+}
